@@ -49,8 +49,9 @@ RULE = ("random schedules (uniform, bursty, one thread stalled after its CAS, co
         "specialisations; sizes 2 and 4 make tickets wrap around the slot array; sequential uSWSR_Ptr_Buffer runs across its "
         "segment boundary; backlog cases push N elements before the first pop for N around slots x segment size (small "
         "geometries under the scheduler with full traces; the compiled default geometry, read from the harness, as a "
-        "count/order digest with 1 and 2 producer threads); thorough adds every schedule prefix of fixed length for tiny configurations and a free-running "
-        "16-thread stress. non-trivial = the trace contains a failed CAS, a retry, an empty pop or a ticket >= the number "
+        "count/order digest with 1 and 2 producer threads); thorough adds every schedule prefix of fixed length for tiny configurations (for 1 push || 2 pops the 2^17 "
+        "prefixes are ALL interleavings, a complete run having at most 17 actions; the other enumerations are prefixes "
+        "followed by round-robin) and a free-running 16-thread stress. non-trivial = the trace contains a failed CAS, a retry, an empty pop or a ticket >= the number "
         "of slots; distinct = distinct case lines")
 
 
